@@ -33,6 +33,8 @@ RULE = (
 )
 ASSUMPTIONS = [
     "the reference (pristine) object is built by constructors only from the model's specification tree -- never via set_params or clone",
+    "a wrapper (ChangeScore / Saving) whose shared inner cost was refitted through another wrapper since its own last fit is not judged until it is refitted (aliasing chosen by the user)",
+    "the caller may overwrite its own data buffer in place between calls (worlds *-mutable-buffer); 'the data given to the last fit' means its contents at that time",
     "a scorer shared with a detector may, on direct evaluate, reflect its last explicit fit OR any data a sharing detector was given since (the statement does not fix whether a detector's internal refit counts)",
     "update is explored with pandas data continuing the index of the fitted data (as the statement says)",
     "histories in which a mutating call raises (in both implementation and reference) are not extended further",
@@ -54,6 +56,10 @@ def _mk():
     # shortcuts (centring, rescaling) that touch the caller's data in place show on such data
     Hh = pd.DataFrame({"a": [1013.0, 1012.5, 1013.5, 1013.0, 1019.0, 1018.5, 1019.5, 1019.0]})
     d = {"A": A, "Ap": Ap, "B": B, "U": U, "H": Hh}
+    # contents of the caller-owned MUTABLE buffer "M" (world entry "__M__"): the caller overwrites it in place
+    # between calls (event "mutate"); version 0 / 1
+    d["M0"] = pd.DataFrame({"a": [0.0, 0.5, 0.0, 0.5, 4.0, 4.5, 4.0, 4.5]})
+    d["M1"] = pd.DataFrame({"a": [4.5, 0.5, 4.0, 0.0, 0.5, 4.5, 0.0, 4.0]})
     d["A+U"] = pd.concat([A, U])
     d["Ap+U"] = pd.concat([Ap, U])
     return d
@@ -70,21 +76,24 @@ CUTS_CANON = {k: H.canon_value(v) for k, v in CUTS.items()}
 
 
 class MObj:
-    __slots__ = ("spec", "fitted", "fitdata", "extra", "role")
+    __slots__ = ("spec", "fitted", "fitdata", "extra", "role", "stale")
 
     def __init__(self, spec, role):
         self.spec, self.role = spec, role
         self.fitted, self.fitdata, self.extra = False, None, frozenset()
+        # stale: a wrapper whose shared inner scorer was refitted through ANOTHER object since its own last
+        # fit; its evaluate is then not determined by its own last fit (aliasing chosen by the user) and is not judged
+        self.stale = False
 
     def copy(self):
         m = MObj(self.spec.copy(), self.role)
-        m.fitted, m.fitdata, m.extra = self.fitted, self.fitdata, self.extra
+        m.fitted, m.fitdata, m.extra, m.stale = self.fitted, self.fitdata, self.extra, self.stale
         return m
 
 
 def model_canon(model):
     res = lambda ref: model[ref[1:]].spec  # noqa: E731
-    return tuple((n, m.spec.canon(None), m.fitted, m.fitdata, tuple(sorted(m.extra))) for n, m in sorted(model.items()))
+    return tuple((n, m.spec.canon(None), m.fitted, m.fitdata, tuple(sorted(m.extra)), m.stale) for n, m in sorted(model.items()))
 
 
 def refs_of(spec, model, acc=None):
@@ -242,6 +251,25 @@ def worlds():
     for cname, mk in (("l2cost", co.L2Cost), ("gvcost", co.GaussianVarCost), ("covcost", co.GaussianCovCost), ("cusum", cs.CUSUM),
                       ("l2saving", asc.L2Saving)):
         W["two-" + cname] = ((lambda mk=mk: {"s": mk(), "t": mk()}), {"sets": [], "data": ("A", "B")})
+    # two wrappers sharing one cost object (no direct calls on the cost itself)
+    def two_wrappers():
+        c = co.L2Cost()
+        return {"c": c, "a": cs.ChangeScore(c), "b": cs.ChangeScore(c)}
+
+    W["wrappers-shared-cost"] = (two_wrappers, {"sets": [], "data": ("A", "B"), "no_events": ("c",)})
+
+    def two_savings():
+        c = co.L2Cost(param=0.0)
+        return {"c": c, "a": asc.Saving(c), "b": asc.Saving(c)}
+
+    W["savings-shared-cost"] = (two_savings, {"sets": [], "data": ("A", "B"), "no_events": ("c",)})
+    # the caller overwrites its own buffer in place between calls
+    W["l2cost-mutable-buffer"] = (lambda: {"s": co.L2Cost()}, {"sets": [], "data": ("M", "B"), "mutable": True, "deep": True})
+    W["changescore-mutable-buffer"] = (lambda: {"s": cs.ChangeScore(co.GaussianVarCost())}, {"sets": [], "data": ("M", "B"), "mutable": True, "deep": True})
+    W["pelt-mutable-buffer"] = (lambda: {"pelt": cd.PELT(co.L2Cost(), penalty_scale=0.05, min_segment_length=1)},
+                                {"sets": [], "data": ("M", "B"), "mutable": True})
+    W["mw-mutable-buffer"] = (lambda: {"mw": cd.MovingWindow(bandwidth=2, threshold_scale=None, level=0.3)},
+                              {"sets": [], "data": ("M", "Ap"), "mutable": True})
     # two detectors of one class (own scorers): instance-independent state hidden in class attributes / module globals
     W["two-pelt"] = (lambda: {"d1": cd.PELT(co.L2Cost(), penalty_scale=0.05, min_segment_length=1),
                               "d2": cd.PELT(co.L2Cost(), penalty_scale=0.5, min_segment_length=2)}, {"sets": [], "data": ("A", "B")})
@@ -287,9 +315,11 @@ def events_for(objs, cfg):
     ev = []
     data = cfg["data"]
     ids = {id(o) for o in objs.values()}
-    referenced = {n for n, o in objs.items() for o2 in objs.values() if o2 is not o
+    referenced = {n for n, o in objs.items() for k2, o2 in objs.items() if o2 is not o and k2 != "__M__" and n != "__M__"
                   and any(v is o for v in o2.get_params(deep=True).values())}
     for name, o in objs.items():
+        if name in cfg.get("no_events", ()) or name == "__M__":
+            continue
         if is_detector(o):
             for d in data:
                 ev.append(("fit", name, d))
@@ -310,6 +340,8 @@ def events_for(objs, cfg):
         ev.append(("getp", name))
     for st in cfg["sets"]:
         ev.append(("set",) + tuple(st))
+    if cfg.get("mutable"):
+        ev.append(("mutate", "__M__"))
     return ev
 
 
@@ -351,9 +383,19 @@ class Explorer:
         self.memo[key] = out
         return out
 
-    def call(self, obj, method, arg, fresh=False):
+    def ests(self, world):
+        return [(n, o) for n, o in world.items() if n != "__M__"]
+
+    def data_for(self, world, model, d):
+        """(object handed to the real call, key of its current contents in DATA)"""
+        if d == "M":
+            return world["__M__"], "M" + model["__M__"].fitdata
+        return DATA[d], d
+
+    def call(self, obj, method, arg, fresh=False, X=None):
         if method in ("predict", "transform", "transform_scores"):
-            X = DATA[arg].copy() if fresh else DATA[arg]
+            if X is None:
+                X = DATA[arg].copy() if fresh else DATA[arg]
             return H.canon_value(getattr(obj, method)(X))
         if method == "evaluate":
             return H.canon_value(obj.evaluate(CUTS[obj.expected_cut_entries].copy()))
@@ -374,8 +416,9 @@ class Explorer:
         m = model[name]
         case = {"world": self.wname, "history": [ev_json(e) for e in path + [ev]]}
         key = {"world": self.wname, "event": kind}
-        names = {id(o): n for n, o in world.items()}
-        before = {n: params_canon(o, names) for n, o in world.items()} if kind in ("fit", "fitpredict", "predict", "transform", "tscores", "update", "sfit", "eval", "getp") else None
+        names = {id(o): n for n, o in self.ests(world)}
+        before = {n: params_canon(o, names) for n, o in self.ests(world)} if kind in ("fit", "fitpredict", "predict", "transform", "tscores", "update", "sfit", "eval", "getp") else None
+        X, dkey = self.data_for(world, model, ev[2]) if kind in ("fit", "fitpredict", "predict", "transform", "tscores", "sfit") else (None, None)
 
         def real(f):
             try:
@@ -386,29 +429,29 @@ class Explorer:
         cont = True
         if kind in ("predict", "transform", "tscores"):
             method = {"predict": "predict", "transform": "transform", "tscores": "transform_scores"}[kind]
-            got = real(lambda: self.call(obj, method, ev[2]))
-            want = self.pristine(model, name, m.fitted, m.fitdata, method, ev[2])
-            self.compare(case, key, got, want, f"{name}.{method}({ev[2]})")
-            self.touch_shared(model, m, ev[2])
+            got = real(lambda: self.call(obj, method, dkey, X=X))
+            want = self.pristine(model, name, m.fitted, m.fitdata, method, dkey)
+            self.compare(case, key, got, want, f"{name}.{method}({dkey})")
+            self.touch_shared(model, m, dkey)
             self.outputs.add(hashlib.md5(repr(got).encode()).hexdigest())
         elif kind == "fitpredict":
-            got = real(lambda: H.canon_value(obj.fit_predict(DATA[ev[2]])))
-            want = self.pristine(model, name, True, ev[2], "predict", ev[2])
-            self.compare(case, key, got, want, f"{name}.fit_predict({ev[2]})")
+            got = real(lambda: H.canon_value(obj.fit_predict(X)))
+            want = self.pristine(model, name, True, dkey, "predict", dkey)
+            self.compare(case, key, got, want, f"{name}.fit_predict({dkey})")
             if got[0] == "ok":
-                m.fitted, m.fitdata = True, ev[2]
-                self.touch_shared(model, m, ev[2])
+                m.fitted, m.fitdata = True, dkey
+                self.touch_shared(model, m, dkey)
             else:
                 cont = False
             self.outputs.add(hashlib.md5(repr(got).encode()).hexdigest())
         elif kind == "fit":
-            got = real(lambda: obj.fit(DATA[ev[2]]) and None)
-            wantfit = real(lambda: H.build(m.spec, lambda r: model[r[1:]].spec).fit(DATA[ev[2]].copy()) and None)
+            got = real(lambda: obj.fit(X) and None)
+            wantfit = real(lambda: H.build(m.spec, lambda r: model[r[1:]].spec).fit(DATA[dkey].copy()) and None)
             if got[0] != wantfit[0] or (got[0] == "exc" and got != wantfit):
-                acc.violation("fit-outcome", case, f"{name}.fit({ev[2]}) -> {got}, pristine object -> {wantfit}", key)
+                acc.violation("fit-outcome", case, f"{name}.fit({dkey}) -> {got}, pristine object -> {wantfit}", key)
             if got[0] == "ok":
-                m.fitted, m.fitdata = True, ev[2]
-                self.touch_shared(model, m, ev[2])
+                m.fitted, m.fitdata = True, dkey
+                self.touch_shared(model, m, dkey)
             else:
                 cont = False
         elif kind == "update":
@@ -424,14 +467,22 @@ class Explorer:
                 wantp = self.pristine(model, name, True, newdata, "fitted_params", None)
                 self.compare(case, key, gotp, wantp, f"fitted parameters after {name}.update(U) vs fit({newdata})")
         elif kind == "sfit":
-            got = real(lambda: obj.fit(DATA[ev[2]]) and None)
+            got = real(lambda: obj.fit(X) and None)
             if got[0] != "ok":
-                acc.violation("scorer-fit-raised", case, f"{name}.fit({ev[2]}) -> {got}", key)
+                acc.violation("scorer-fit-raised", case, f"{name}.fit({dkey}) -> {got}", key)
                 cont = False
             else:
-                m.fitted, m.fitdata, m.extra = True, ev[2], frozenset()
+                m.fitted, m.fitdata, m.extra, m.stale = True, dkey, frozenset(), False
+                mine = refs_of(m.spec, model)
+                for n2, m2 in model.items():  # other wrappers of the same shared scorer are no longer in sync
+                    if n2 not in (name, "__M__") and m2.role == "scorer" and (refs_of(m2.spec, model) & mine):
+                        m2.stale = True
         elif kind == "eval":
             got = real(lambda: self.call(obj, "evaluate", None))
+            if m.stale:
+                acc.count("evaluate_on_wrapper_whose_shared_scorer_was_refitted_elsewhere_not_judged")
+                self.outputs.add(hashlib.md5(repr(got).encode()).hexdigest())
+                return True
             cands = ([m.fitdata] if m.fitted else []) + sorted(m.extra)
             wants = [self.pristine(model, name, True, f, "evaluate", None) for f in cands]
             if not m.fitted:  # never explicitly fitted: being unfitted is also consistent
@@ -459,10 +510,19 @@ class Explorer:
                 world[name] = got[1]
                 # the clone owns copies of everything it referenced
                 m.spec = self.inline(m.spec, model)
-                m.fitted, m.fitdata, m.extra = False, None, frozenset()
+                m.fitted, m.fitdata, m.extra, m.stale = False, None, frozenset(), False
         elif kind == "getp":
             real(lambda: obj.get_params(deep=True))
+        elif kind == "mutate":
+            # the CALLER overwrites its own buffer in place (same object, new contents)
+            nv = "1" if m.fitdata == "0" else "0"
+            world["__M__"].iloc[:, :] = DATA["M" + nv].to_numpy()
+            m.fitdata = nv
+            return True
         # (2) caller's data untouched
+        if "__M__" in world and H.canon_value(world["__M__"]) != DATA_CANON["M" + model["__M__"].fitdata]:
+            acc.violation("caller-data-modified", case, f"the caller's buffer M was modified by {kind}", key)
+            world["__M__"].iloc[:, :] = DATA["M" + model["__M__"].fitdata].to_numpy()
         for dk, dv in DATA.items():
             if H.canon_value(dv) != DATA_CANON[dk]:
                 acc.violation("caller-data-modified", case, f"data set {dk} was modified by {kind}", key)
@@ -472,13 +532,13 @@ class Explorer:
                 acc.violation("caller-cuts-modified", case, f"cuts array was modified by {kind}", key)
                 CUTS[ck] = {2: np.array([[0, 4], [1, 6]]), 3: np.array([[0, 2, 5], [1, 3, 6]]), 4: np.array([[0, 1, 4, 6], [0, 2, 4, 5]])}[ck]
         # (3) hyper-parameters untouched by fit / predict / evaluate, and equal to the model's
-        names = {id(o): n for n, o in world.items()}
+        names = {id(o): n for n, o in self.ests(world)}
         if before is not None:
-            for n, o in world.items():
+            for n, o in self.ests(world):
                 if params_canon(o, names) != before[n]:
                     acc.violation("hyperparameters-modified", case, f"get_params() of {n} changed by {kind}", key)
         res = lambda ref: model[ref[1:]].spec  # noqa: E731
-        for n, o in world.items():
+        for n, o in self.ests(world):
             if params_canon(o, names) != model[n].spec.canon(res):
                 acc.violation("params-vs-model", case, f"{n}.get_params() = {params_canon(o, names)} but the history implies {model[n].spec.canon(res)}", key)
         return cont
@@ -496,6 +556,10 @@ class Explorer:
                                f"{what}: history gives {self.short(got)}; freshly constructed object fitted the same way gives {self.short(want)}", key)
 
     def touch_shared(self, model, m, d):
+        mine = refs_of(m.spec, model)
+        for n2, m2 in model.items():
+            if m2 is not m and n2 != "__M__" and m2.role == "scorer" and n2 not in mine and (refs_of(m2.spec, model) & mine):
+                m2.stale = True
         for r in refs_of(m.spec, model):
             model[r].extra = model[r].extra | {d}
 
@@ -512,7 +576,7 @@ class Explorer:
 
     def model_set(self, model, name, pkey, val):
         m = model[name]
-        m.fitted, m.fitdata, m.extra = False, None, frozenset()
+        m.fitted, m.fitdata, m.extra, m.stale = False, None, frozenset(), False
         head, _, rest = pkey.partition("__")
         if not rest:
             m.spec.params[head] = val.copy() if isinstance(val, Spec) else val
@@ -531,6 +595,8 @@ class Explorer:
 
     def enabled(self, ev, model):
         kind, name = ev[0], ev[1]
+        if kind == "mutate":
+            return True
         m = model[name]
         if kind == "update":
             return m.fitted and m.fitdata in ("A", "Ap", "A+U", "Ap+U")
@@ -575,14 +641,22 @@ class Explorer:
         c = H.ObjCanon()
         for n in sorted(world):
             c.feed("name", n)
-            c.walk(world[n])
+            c.walk(world[n])  # includes the caller's mutable buffer "__M__" (a DataFrame) where present
         return (c.digest(), model_canon(model), self.gcur)
 
-    def run(self):
-        acc = self.acc
+    def initial(self):
         objs = self.make()
         names = {id(o): n for n, o in objs.items()}
         model = {n: MObj(spec_from_obj(o, names), "det" if is_detector(o) else "scorer") for n, o in objs.items()}
+        if self.cfg.get("mutable"):
+            objs["__M__"] = DATA["M0"].copy()
+            model["__M__"] = MObj(Spec("__M__"), "data")
+            model["__M__"].fitdata = "0"
+        return objs, model
+
+    def run(self):
+        acc = self.acc
+        objs, model = self.initial()
         events = events_for(objs, self.cfg)
         init = (objs, model, [], self.g0, self.g0d)
         seen = {self.state_key(objs, model)}
@@ -597,7 +671,9 @@ class Explorer:
             for ev in events:
                 if not self.enabled(ev, model):
                     continue
-                w2 = copy.deepcopy(world)
+                # the caller's constant data sets keep their IDENTITY across states (an object that remembers the
+                # data object it was fitted on must see the very same object again, as a real caller would pass it)
+                w2 = copy.deepcopy(world, {id(v): v for v in DATA.values()})
                 m2 = {n: m.copy() for n, m in model.items()}
                 if self.gcur != gdig:
                     self.G.restore(gsnap)
@@ -624,7 +700,7 @@ class Explorer:
                     frontier.append((w2, m2, path + [ev], gs2, d))
                     per_depth[len(path) + 1] += 1
                     maxdepth = max(maxdepth, len(path) + 1)
-                    if any(m.fitted for m in m2.values()):
+                    if any(m.fitted for n3, m in m2.items() if n3 != "__M__"):
                         fitted_states += 1
                     if len(acc.samples) < 2 and len(path) + 1 == min(self.depth, 3):
                         acc.sample({"world": self.wname, "history": [ev_json(e) for e in path + [ev]]})
@@ -680,9 +756,7 @@ def replay(case):
     acc = core.Acc()
     wname = case["world"]
     ex = Explorer(wname, 99, acc)
-    objs = ex.make()
-    names = {id(o): n for n, o in objs.items()}
-    model = {n: MObj(spec_from_obj(o, names), "det" if is_detector(o) else "scorer") for n, o in objs.items()}
+    objs, model = ex.initial()
     events = events_for(objs, ex.cfg)
     import json
 
